@@ -11,7 +11,9 @@ META = {
             "(CVE-2025-31115 shape), delivered output is always a prefix of the single-threaded output (also with fail-fast), the final "
             "status and output equal the single-threaded ones (errors only after all earlier output; the pending-error placeholder never "
             "leaks), no lost wake-up (a waiter without pending signal has its wait condition true, for workers and for the main thread). "
-            "Deadlock freedom is stated and partially proved. Tie to the code: protocol constants regenerated from the source (Gen/C07.lean, "
+            "Deadlock freedom is proved: every reachable non-final state has an enabled transition that is neither a spurious wake-up nor a "
+            "timer expiry (the owner of the head outbuf can always move), and the all-threads-blocked state is unreachable; early lzma_end "
+            "joins only exited workers and nothing touches a joined worker. Tie to the code: protocol constants regenerated from the source (Gen/C07.lean, "
             "bridged by decide); the real decoder runs under a controlled scheduler (link-time pthread interposition, seeded random / PCT / "
             "non-preemptive schedules, forced time-outs and spurious wake-ups, deadlock = all threads blocked) on valid, corrupted, "
             "truncated, size-less, per-Block-filter and concatenated inputs, and must deliver exactly the bytes and status of "
@@ -21,9 +23,10 @@ META = {
     "note": "Trusted: Lean kernel + propext/Classical.choice/Quot.sound; the pthread semantics assumed by harness/vsched.c (mutual "
             "exclusion, atomic release on wait, signal wakes >= 1 waiter, spurious wake-ups); schedules are sampled, not enumerated, on "
             "the C side (the Lean theorems quantify over all of them for the model); preemption only at synchronisation operations, "
-            "data races between them are observed by TSan at run time only (two genuine races are known findings). Not modelled: "
+            "data races between them are observed by TSan at run time only (three genuine races are known findings). Not modelled: "
             "allocation failure paths, LZMA_*_CHECK informational returns, the wrapper's LZMA_BUF_ERROR (truncated input is covered by "
-            "the direct oracle only), output-buffer cache, mem_cached.",
+            "the direct oracle only), output-buffer cache, mem_cached. Not proved in Lean: termination (no fairness assumption in the model), "
+            "the memory-accounting bound (compared at run time by the trace inclusion), any status claim under LZMA_FAIL_FAST.",
     "technique": "Lean 4 invariant proofs over an LTS + controlled-scheduler differential testing + trace inclusion + TSan",
 }
 
